@@ -22,6 +22,7 @@ mod c14;
 mod c15;
 mod c16;
 mod c19;
+mod c20;
 
 #[global_allocator]
 static GLOBAL: mcx::alloc::Counting = mcx::alloc::Counting;
@@ -149,6 +150,7 @@ fn dispatch(id: &str, r: &Report) {
         "C17" => serde_checks::c17(r),
         "C18" => serde_checks::c18(r),
         "C19" => c19::run(r),
+        "C20" => c20::run(r),
         _ => {
             eprintln!("unknown property {}", id);
             std::process::exit(2)
